@@ -90,7 +90,7 @@ func main() {
 		"names containing a backslash, '...', over-long names are not judged; execution of the install SOURCE file itself is not judged (only sentinels elsewhere, success, and file-system changes)",
 		"chroot is permitted in the sandbox (checked at start; otherwise the run is inconclusive)"}
 	scratch := lib.TempDir("c16")
-	defer os.RemoveAll(scratch)
+	r.OnExit(func() { os.RemoveAll(scratch) })
 	workerSrc = filepath.Join(scratch, "worker")
 	b, err := os.ReadFile(filepath.Join(os.Getenv("VERIF_BIN"), "worker"))
 	if err != nil {
